@@ -103,7 +103,7 @@ def receive(cipher, stream: bytes, start: int = 0) -> Tuple[List[Tuple[int, byte
 
 def split_messages(plain: bytes):
     """Split a decrypted accessory->controller byte stream into complete HTTP/1.1 responses and
-    EVENT/1.0 messages. Returns (messages, leftover); a message is (kind, status, headers, body)."""
+    EVENT/1.0 messages. Returns (messages, leftover); a message is (kind, status, headers, body, total size)."""
     msgs, pos = [], 0
     while pos < len(plain):
         head_end = plain.find(b"\r\n\r\n", pos)
@@ -135,6 +135,6 @@ def split_messages(plain: bytes):
         body_start = head_end + 4
         if body_start + n > len(plain):
             break
-        msgs.append(("event" if first[0] == b"EVENT/1.0" else "response", status, headers, plain[body_start : body_start + n]))
+        msgs.append(("event" if first[0] == b"EVENT/1.0" else "response", status, headers, plain[body_start : body_start + n], body_start + n - pos))
         pos = body_start + n
     return msgs, plain[pos:]
